@@ -29,7 +29,8 @@ ZERO_IS_ERROR = frozenset("PyArg_ParseTuple PyArg_ParseTupleAndKeywords PyArg_Un
 
 # pointer-returning lookups whose NULL means "not there" (no exception set)
 NULL_NOT_ERROR = frozenset("""PyDict_GetItem PyDict_GetItemString PyDict_GetItemWithError
-PyErr_Occurred PyWeakref_GetObject PyTuple_GET_ITEM PyList_GET_ITEM""".split())
+PyErr_Occurred PyWeakref_GetObject PyTuple_GET_ITEM PyList_GET_ITEM
+malloc realloc calloc""".split())       # (the C allocators fail without touching the error indicator)
 
 
 class _RetVals(Analysis):
